@@ -4,13 +4,14 @@
 # passes without it, and no test of the stable baseline fails with it.
 set -u
 WT=$1; SD=$2
+DEMO=demo.sh; [ -f "$SD/run_demo.sh" ] && DEMO=run_demo.sh
 cd "$WT" || exit 2
 git checkout -q -- src build Cargo.toml 2>/dev/null
 export RUST_BACKTRACE=0 CARGO_NET_OFFLINE=true
-echo "== without change"; cargo build --offline -q 2>/dev/null; ( cd "$WT" && bash "$SD/demo.sh" >/tmp/demo_without.log 2>&1 ); echo "demo exit (want 0): $?"
+echo "== without change"; cargo build --offline -q 2>/dev/null; ( cd "$WT" && bash "$SD/$DEMO" >/tmp/demo_without.log 2>&1 ); echo "demo exit (want 0): $?"
 echo "== with change"; git apply "$SD/patch.diff" || { echo "patch does not apply"; exit 2; }
 cargo build --offline -q 2>/dev/null || { echo "build failed"; git checkout -q -- src; exit 2; }
-( cd "$WT" && bash "$SD/demo.sh" >/tmp/demo_with.log 2>&1 ); echo "demo exit (want non-zero): $?"
+( cd "$WT" && bash "$SD/$DEMO" >/tmp/demo_with.log 2>&1 ); echo "demo exit (want non-zero): $?"
 rm -f target/nextest/pb/junit.xml
 cargo nextest run --workspace --no-fail-fast --tool-config-file pb:/w/lib/nextest.toml --profile pb --test-threads 8 --offline >/tmp/seed_tests.log 2>&1
 python3 - "$WT" <<'PY'
